@@ -9,10 +9,13 @@ import (
 	"fmt"
 	"github.com/gobwas/ws"
 	"github.com/gobwas/ws/wsutil"
+	"google.golang.org/grpc/metadata"
 	"io"
 	"math/rand"
 	"net/http"
+	"reflect"
 	"runtime"
+	"sort"
 	"strings"
 	"sync"
 	"sync/atomic"
@@ -187,6 +190,7 @@ func (h c13impl) Unary(ctx context.Context, md protoreflect.MethodDescriptor, in
 	switch md.Name() {
 	case "Echo":
 		id, seq, data := chunkFields(in)
+		grpc.SetHeader(ctx, metadata.Pairs("x-vf-echo", id))
 		if !chunkOK(id, seq, data) {
 			h.bad("unary-echo", fmt.Sprintf("chunk %s/%d carries %d bytes that are not its own payload", id, seq, len(data)), id)
 		}
@@ -425,6 +429,15 @@ func (h c13impl) duplex(md protoreflect.MethodDescriptor, ss grpc.ServerStream, 
 	default:
 		return nil
 	}
+}
+
+func keysOf(md metadata.MD) []string {
+	var ks []string
+	for k, v := range md {
+		ks = append(ks, fmt.Sprintf("%s(%d)", k, len(v)))
+	}
+	sort.Strings(ks)
+	return ks
 }
 
 func nameOf(m proto.Message) string {
@@ -824,11 +837,19 @@ var lanes = []lane{
 		if lr.Intn(2) == 0 {
 			opts = append(opts, grpc.UseCompressor(gzip.Name))
 		}
+		var hdr metadata.MD
+		opts = append(opts, grpc.Header(&hdr))
 		if err := e.cc.Invoke(ctx, e.std.Full("Echo"), mkChunk(id, 5, prf(id+"/5", size)), out, opts...); err != nil {
 			if ctx.Err() != nil {
 				return "WEDGED"
 			}
 			return "grpc-go error: " + err.Error()
+		}
+		if got := hdr.Get("x-vf-echo"); len(got) != 1 || got[0] != id {
+			return fmt.Sprintf("response header x-vf-echo = %q, the handler set exactly [%q] for this call", got, id)
+		}
+		if got := hdr.Get("x-vf-server"); len(got) != 1 || got[0] != "verif" {
+			return fmt.Sprintf("response header x-vf-server = %q, the interceptor set [\"verif\"]", got)
 		}
 		gid, gseq, gdata := chunkFields(out)
 		if gid != id || gseq != 5 || !bytes.Equal(gdata, prf(id+"/5", size)) {
@@ -1193,7 +1214,26 @@ func RunC13(r *mon.Run) {
 		r.Violate(key, what, c)
 	}
 	impl := c13impl{m: m, viol: viol}
+	// a unary and a stream interceptor add the same server-wide metadata
+	// object to every call before the handler adds its own per-request
+	// header: nothing of one call may end up in that object or in another
+	// call's response
+	serverMD := metadata.Pairs("x-vf-server", "verif", "x-vf-build-bin", "\x00\x01\x02")
+	serverMDWant := serverMD.Copy()
+	defer func() {
+		if !reflect.DeepEqual(map[string][]string(serverMD), map[string][]string(serverMDWant)) {
+			viol("interceptor-owned-metadata-modified", fmt.Sprintf("the metadata object the interceptors pass to SetHeader on every call was written to: now %d keys %v", len(serverMD), keysOf(serverMD)), nil)
+		}
+	}()
 	mux, err := std.NewMux(impl,
+		larking.UnaryServerInterceptorOption(func(ctx context.Context, req interface{}, info *grpc.UnaryServerInfo, handler grpc.UnaryHandler) (interface{}, error) {
+			grpc.SetHeader(ctx, serverMD)
+			return handler(ctx, req)
+		}),
+		larking.StreamServerInterceptorOption(func(srv interface{}, ss grpc.ServerStream, info *grpc.StreamServerInfo, handler grpc.StreamHandler) error {
+			ss.SetHeader(serverMD)
+			return handler(srv, ss)
+		}),
 		larking.CodecOption("application/json", yCodec{larking.CodecJSON{}, m}),
 		larking.CodecOption("application/protobuf", yCodec{larking.CodecProto{}, m}),
 		larking.CompressorOption("gzip", yComp{&larking.CompressorGzip{}}),
